@@ -1,11 +1,15 @@
 import ZChain.Drv.Util
 import ZChain.Model.Ledger
+import ZChain.Model.FreeMarkers
 /-! Line driver for C04's correspondence on REAL contracts (`harness/cmd/c04`): the engine model
 `Model/Ledger.lean` fed with the transfers the real contract queued. Same line format and same answers as the
 LEDGER driver (whose parser is repeated here because a driver file carries its own `main`), except that
 `init` carries one more token after the fee switch (the hard-fork profile of the real world, ignored here) and a
 `txn` line carries one more, ignored, token: the description of the real contract call the line was recorded from
 (`txn <typ> <sender> <to> <toValid> <value> <fee> <nonce> <res> <payload>`).
+`fsa <assigner> <key> <individual> <total> <byOwner> <ref>` and `frm <assigner> <signKey> <intact> <recipientOk> <coins> <nonce> <later> <ref>`
+(`ref` = the transaction the line shadows, ignored)
+run the free-storage marker book (`Model/FreeMarkers.lean`) and answer its verdict.
 Line driver for the engine model.
 `init <feeOn 0|1> <id:bal:nonce>*`
 `txn <send|data|sc|invalid> <sender> <to> <toValid 0|1> <value> <fee> <nonce> <res>`
@@ -18,6 +22,7 @@ open ZChain.Ledger
 structure DS where
   feeOn : Bool
   st : St
+  book : ZChain.FreeMarkers.Book := []
 
 def insertSorted (x : Nat × String) : List (Nat × String) → List (Nat × String)
   | [] => [x]
@@ -97,7 +102,7 @@ def step (d : DS) (ws : List String) : DS × String :=
   match ws with
   | "init" :: fee :: _profile :: accts =>
     match parseAccts accts with
-    | some a => if fee = "0" ∨ fee = "1" then ({ feeOn := fee = "1", st := ⟨a, []⟩ }, "ok") else (d, "bad-op")
+    | some a => if fee = "0" ∨ fee = "1" then ({ feeOn := fee = "1", st := ⟨a, []⟩, book := [] }, "ok") else (d, "bad-op")
     | none => (d, "bad-op")
   | ["txn", typ, sender, to, tv, value, fee, nonce, res, _payload] =>
     match parseTyp typ, sender.toNat?, parseId to, value.toNat?, fee.toNat?, nonce.toInt?, parseRes res with
@@ -107,6 +112,25 @@ def step (d : DS) (ws : List String) : DS × String :=
       let (s', st) := ZChain.Ledger.step d.feeOn d.st t r
       ({ d with st := s' }, showStatus st ++ " " ++ showState s')
     | _, _, _, _, _, _, _ => (d, "bad-op")
+  -- the free-storage marker book (Model/FreeMarkers.lean); these lines shadow the real transaction before them
+  | ["fsa", name, key, individual, total, owner, _ref] =>
+    match name.toNat?, key.toNat?, individual.toNat?, total.toNat? with
+    | some n, some k, some i, some t =>
+      if owner ≠ "0" ∧ owner ≠ "1" then (d, "bad-op") else
+      let (b, a) := ZChain.FreeMarkers.register d.book (owner = "1") n k i t
+      ({ d with book := b }, match a with
+        | .ok => "ok" | .notOwner => "rej-owner" | .totalCap => "rej-total-cap" | .individualCap => "rej-individual-cap")
+    | _, _, _, _ => (d, "bad-op")
+  | ["frm", name, signKey, intact, recip, coins, nonce, later, _ref] =>
+    match name.toNat?, signKey.toNat?, coins.toNat?, nonce.toInt? with
+    | some n, some k, some c, some x =>
+      if (intact ≠ "0" ∧ intact ≠ "1") ∨ (recip ≠ "0" ∧ recip ≠ "1") ∨ (later ≠ "0" ∧ later ≠ "1") then (d, "bad-op") else
+      let (b, a) := ZChain.FreeMarkers.redeem d.book n k (intact = "1") (recip = "1") c x (later = "1")
+      ({ d with book := b }, match a with
+        | .accept => "accept" | .passedFailedLater => "passed-failed-later" | .notRecipient => "rej-recipient"
+        | .unknownAssigner => "rej-unknown-assigner" | .badSignature => "rej-signature" | .overTotal => "rej-total"
+        | .overIndividual => "rej-individual" | .nonceUsed => "rej-nonce")
+    | _, _, _, _ => (d, "bad-op")
   | _ => (d, "bad-op")
 
 def run : IO Unit := ZChain.Drv.runLoop step { feeOn := true, st := ⟨[], []⟩ }
